@@ -73,7 +73,8 @@ Section Good.
     | Emit e k =>
         match e with
         | EFire c k0 v => exists owe', CB = Some c /\ owe = (k0, v) :: owe' /\ good o lin owe' nfn k
-        | _ => good o lin owe nfn k
+        | EFn _ => False          (* user-function events come from the map call itself, never from a method body *)
+        | EVisit _ _ => good o lin owe nfn k
         end
     | MapCall mo k =>
         forall P L, Rm P L ->
